@@ -253,6 +253,82 @@ def rand_formula(rng, natoms, depth):
     if r < 0.62: return ('A %s %s' % (t1, t2), lambda e: f1(e) and f2(e))
     return ('O %s %s' % (t1, t2), lambda e: f1(e) or f2(e))
 
+# ------------------------------------------------------------------ executable model of dnf.c (term order included)
+# Used only to recognise the one recorded defect: dnfOrMerge cancels a term against the negation of a
+# multi-literal term, (A & ~b & ~c) | (b & c) -> A | (b & c), which is not an equivalence.
+TRUE_NF = [[]]; FALSE_NF = []
+def m_is_true(x): return len(x) == 1 and len(x[0]) == 0
+def m_lt(a, b): return abs(a) < abs(b)
+def m_and_merge(x, y):
+    if not x: return list(y)
+    if not y: return list(x)
+    r = []; i = j = 0
+    while i < len(x) and j < len(y):
+        if m_lt(x[i], y[j]): r.append(x[i]); i += 1
+        elif m_lt(y[j], x[i]): r.append(y[j]); j += 1
+        elif x[i] == y[j]: i += 1
+        else: return None
+    return r + x[i:] + y[j:]
+def m_and_implies(x, y):
+    if len(x) < len(y): return False
+    i = j = 0
+    while i < len(x) and j < len(y):
+        if m_lt(x[i], y[j]): i += 1
+        elif x[i] == y[j]: i += 1; j += 1
+        else: return False
+    return j == len(y)
+def m_and_implies_neg(x, y):
+    if len(x) < len(y): return False
+    i = j = 0
+    while i < len(x) and j < len(y):
+        if m_lt(x[i], y[j]): i += 1
+        elif x[i] == -y[j]: i += 1; j += 1
+        else: return False
+    return j == len(y)
+def m_cancel_neg(x, y):
+    r = []; i = j = 0
+    while i < len(x) and j < len(y):
+        if m_lt(x[i], y[j]): r.append(x[i]); i += 1
+        elif x[i] == -y[j]: i += 1; j += 1
+        else: raise AssertionError
+    return r + x[i:]
+def m_or_merge(xs):
+    xs = list(xs)
+    for i in range(len(xs)):
+        for j in range(len(xs)):
+            if i != j and xs[i] is not None and xs[j] is not None and m_and_implies(xs[i], xs[j]): xs[i] = None
+            if i != j and xs[i] is not None and xs[j] is not None and m_and_implies_neg(xs[i], xs[j]): xs[i] = m_cancel_neg(xs[i], xs[j])
+    return [t for t in xs if t is not None]
+def m_or(x, y):
+    if m_is_true(x) or m_is_true(y): return TRUE_NF
+    if not x: return [list(t) for t in y]
+    if not y: return [list(t) for t in x]
+    return m_or_merge([list(t) for t in x] + [list(t) for t in y])
+def m_and(x, y):
+    if not x or not y: return FALSE_NF
+    if m_is_true(x): return [list(t) for t in y]
+    if m_is_true(y): return [list(t) for t in x]
+    return m_or_merge([m_and_merge(a, b) for a in x for b in y])
+def m_not(x):
+    if not x: return TRUE_NF
+    if m_is_true(x): return FALSE_NF
+    r = TRUE_NF
+    for t in x: r = m_and(r, [[-a] for a in t])
+    return r
+def m_eval(toks):
+    t = toks.pop(0)
+    if t[0] == 'a': return [[int(t[1:])]]
+    if t[0] == 'n': return [[-int(t[1:])]]
+    if t == 'T': return TRUE_NF
+    if t == 'F': return FALSE_NF
+    if t == 'N': return m_not(m_eval(toks))
+    x = m_eval(toks); y = m_eval(toks)
+    return m_and(x, y) if t == 'A' else m_or(x, y)
+def m_show(nf):
+    if m_is_true(nf): return 'T'
+    if not nf: return 'F'
+    return '|'.join(','.join(str(a) for a in t) if t else '()' for t in nf)
+
 def parse_nf(s):
     if s == 'T': return [[]]
     if s == 'F': return []
@@ -356,7 +432,11 @@ def main():
             for e in ENV[n]:
                 if nf_eval(nf, e) != bool(f(e)):
                     # classify the one known wrong rewrite: a term cancelled against a multi-literal negation
-                    bad.append(('dnf-not-equivalent', 'formula %s -> %s differs at %s' % (t, got, e[1:]), t)); break
+                    try: same_as_model = (m_show(m_eval(t.split(' '))) == got)
+                    except Exception: same_as_model = False
+                    if same_as_model: bad.append(('dnf-not-equivalent:multi-literal-negation-cancel', 'formula %s -> %s differs at %s; the result is exactly what dnf.c\'s documented merge rules give (a term is cancelled against the negation of a multi-literal term)' % (t, got, e[1:]), t))
+                    else: bad.append(('dnf-not-equivalent', 'formula %s -> %s differs at %s' % (t, got, e[1:]), t))
+                    break
         for ((t1, f1, n), (t2, f2, _)), got in zip(pairs, out[len(part):]):
             fl = got.split(' ')
             if len(fl) < 5: bad.append(('dnf-output', 'bad R line %r' % got, t1)); continue
